@@ -30,6 +30,11 @@ def evalMustache (P : Params) (s : Stack) (expr : Str) : Res Val :=
     | .ok none => (match P.exprEval expr (s.envMap P.cfg) with | .ok v => .ok v | .err _ _ => .ok .nil | r => r)
     | r => r.castErr
 
+/-- what one mustache contributes: nothing for nil, else the value's string form (`fmt.Sprint`) -/
+def mustachePiece : Val → Str
+  | .nil => []
+  | v => v.sprint
+
 /-- `interpolateToWriter`: scan `{{` … first following `}}`; the value's string form is written as is (no escaping: the
     serialiser escapes) -/
 def interpolateAux (P : Params) (s : Stack) : Nat → Str → Res Str
@@ -45,9 +50,8 @@ def interpolateAux (P : Params) (s : Stack) : Nat → Str → Res Str
         let expr := trimExpr (after.take en)
         match evalMustache P s expr with
         | .ok v =>
-          let piece := match v with | .nil => [] | v => v.sprint
           (match interpolateAux P s f (after.drop (en + 2)) with
-           | .ok rest => .ok (input.take st ++ piece ++ rest)
+           | .ok rest => .ok (input.take st ++ mustachePiece v ++ rest)
            | e => e)
         | e => e.castErr
 
